@@ -323,7 +323,7 @@ TABLE = {
           ('default_time_series_order_after_any_validated_history', '@reachable_default_time_topo', []),
           ('default_time_series_order_is_a_function_of_what_equality_compares', '@equal_graphs_same_time_order', []),
           ]),
- 'C14': ('Base Digraph TSGraph TSGraphProofs MinimalProofs MinimalProofs2 Names Graph GraphObs GraphInv Bridge BridgeProofs',
+ 'C14': ('Base Digraph TSGraph TSGraphProofs MinimalProofs MinimalProofs2 Names Graph GraphObs GraphInv Bridge BridgeProofs PyRtTSb PyRtTSbLemmas TSGenMinimal TSGenMinimalProofs',
          'C14 — the minimal graph is exactly the set of lag-invariant edge templates.\n'
          '    NOT proved in general (statement kept in MinimalProofs.v): adj_matrices_statement (adjacency_matrices = the template set\n'
          '    written as one matrix per source lag); it is compared with the implementation on every run instead.',
@@ -341,8 +341,15 @@ TABLE = {
           ('adjacency_matrices_refuses_other_edge_types', 'adj_matrices_type_error', []),
           ('applies_to_every_state_reached_by_calls_with_canonical_names', '@canonical_history_bridge', []),
           ('time_series_abstraction_of_reachable_state_is_well_formed', '@to_tsg_wf', []),
+          ('translated_get_minimal_graph_equals_the_model', 'gen_minimal_equiv', []),
+          ('translated_get_minimal_graph_on_every_input', 'gen_minimal_all_inputs', []),
+          ('translated_is_minimal_graph_equals_the_model', 'gen_is_minimal_equiv', []),
+          ('translated_is_minimal_graph_with_a_filled_cache', 'gen_is_minimal_cached', []),
+          ('translated_get_minimal_graph_meets_the_characterisation', 'gen_minimal_spec', []),
+          ('translated_get_minimal_graph_passes_the_oracle', 'gen_minimal_check', []),
+          ('translated_is_minimal_graph_iff_equals_its_minimal_graph', 'gen_is_minimal_iff', []),
           ]),
- 'C15': ('Base Digraph TSGraph TSGraphProofs MinimalProofs ExtendProofs Extracted SourceFacts SFExtend',
+ 'C15': ('Base Digraph TSGraph TSGraphProofs MinimalProofs ExtendProofs Extracted SourceFacts SFExtend PyRtTSb PyRtTSbLemmas TSGenExtend TSGenExtendProofs',
          'C15 — the extended graph is the exact unrolling of the minimal graph over the window.',
          [('negative_steps_refused', 'extend_neg', []),
           ('extend_succeeds_and_meets_characterisation', 'extend_spec', []),
@@ -355,8 +362,15 @@ TABLE = {
           ('oracle_decides_the_characterisation', 'c15_check_m_spec', []),
           ('model_output_passes_the_oracle', 'extend_check', []),
           ('extend_graph_defaults_in_source_are_the_modelled_ones', 'extend_graph_defaults', []),
+          ('translated_extend_graph_equals_the_model_on_every_input', 'gen_extend_equiv', []),
+          ('translated_extend_graph_default_arguments', 'gen_extend_defaults_pinned', []),
+          ('translated_extend_graph_meets_the_characterisation', 'gen_extend_spec', []),
+          ('translated_extend_graph_passes_the_oracle', 'gen_extend_check', []),
+          ('translated_extend_graph_same_parents_up_to_shift', 'gen_extend_same_parents', []),
+          ('translated_extend_graph_larger_window_gives_super_graph', 'gen_extend_monotone', []),
+          ('translated_extend_graph_minimal_of_result', 'gen_minimal_of_extend', []),
           ]),
- 'C16': ('Base Digraph TSGraph TSGraphProofs MinimalProofs ExtendProofs StationaryProofs StationaryProofs2',
+ 'C16': ('Base Digraph TSGraph TSGraphProofs MinimalProofs ExtendProofs StationaryProofs StationaryProofs2 PyRtTSa TSGenStationary TSGenStationaryProofs',
          'C16 — the stationary graph is the least stationary super-graph; the test agrees.\n'
          '    A time-series DAG whose CONTEMPORANEOUS templates are cyclic across lags (X(t-1)->Y(t-1), Y->Z, Z(t-2)->X(t-2)) has a cyclic stationary\n'
          '    graph, which is_stationary_graph rejects as a non-DAG (stat_dag_input_refuted; observation O8 in DESIGN.md): the property presupposes\n'
@@ -375,8 +389,14 @@ TABLE = {
           ('result_is_stationary_when_minimal_graph_is_a_dag', 'stat_stationary', []),
           ('oracle_decides_the_characterisation', 'c16_check_spec', []),
           ('dag_input_with_cyclic_templates_refuted', 'stat_dag_input_refuted', []),
+          ('translated_get_stationary_graph_equals_the_model_on_every_input', 'gen_stationary_equiv', []),
+          ('translated_is_stationary_graph_equals_the_model_on_every_input', 'gen_is_stationary_equiv', []),
+          ('translated_is_stationary_graph_with_a_filled_cache', 'gen_is_stationary_cached', []),
+          ('translated_get_stationary_graph_meets_the_characterisation', 'gen_stationary_c16_spec', []),
+          ('translated_get_stationary_graph_passes_the_oracle', 'gen_stationary_check', []),
+          ('translated_is_stationary_graph_iff', 'gen_is_stationary_graph_iff', []),
           ]),
- 'C17': ('Base Digraph TSGraph TSGraphProofs SummaryProofs Names Graph GraphObs GraphInv Bridge BridgeProofs',
+ 'C17': ('Base Digraph TSGraph TSGraphProofs SummaryProofs Names Graph GraphObs GraphInv Bridge BridgeProofs PyRtTSa TSGenSummary TSGenSummaryProofs',
          'C17 — the summary graph has one node per variable and an edge per causal link.',
          [('succeeds_on_every_dag_and_meets_characterisation', 'summary_ok', []),
           ('only_non_dags_are_refused', 'summary_not_dag', []),
@@ -387,6 +407,11 @@ TABLE = {
           ('no_self_edges_one_edge_per_pair', 'summary_no_self', []),
           ('oracle_decides_the_characterisation', 'c17_check_spec', []),
           ('applies_to_every_state_reached_by_calls_with_canonical_names', '@canonical_history_summary', []),
+          ('translated_get_summary_graph_equals_the_model_on_every_input', 'gen_summary_equiv', []),
+          ('translated_get_summary_graph_succeeds_on_every_dag_and_meets_characterisation', 'gen_summary_ok', []),
+          ('translated_get_summary_graph_refuses_only_non_dags', 'gen_summary_only_assert', []),
+          ('translated_get_summary_graph_passes_the_oracle', 'gen_summary_check', []),
+          ('translated_get_summary_graph_one_node_per_variable', 'gen_summary_nodes', []),
           ]),
  'C18': ('Base Digraph DigraphProofs DSep DSepProofs Identify IdentifyProofs IdentifyDSep Names Graph GraphObs GraphInv Bridge BridgeProofs PyRt IdentifyGenLemmas IdentifyGenConf IdentifyGenConfProofs',
          'C18 — identified confounders are common causes that close every back-door path.\n'
@@ -447,6 +472,9 @@ TABLE = {
 }
 
 
+BASE_SPLIT = ('C14', 'C15', 'C16', 'C17')
+
+
 def coq_type(imports, expr, unfold):
     with tempfile.TemporaryDirectory() as d:
         f = Path(d) / 'q.v'
@@ -497,6 +525,17 @@ def main(which):
             out += [f'Theorem {pid}_{name} :\n{ty}.', f'Proof. exact ({expr}). Qed.', f'Print Assumptions {pid}_{name}.', '']
         p = TH / 'Properties' / f'{pid}.v'
         p.write_text('\n'.join(out))
+        if pid in BASE_SPLIT:
+            # the same file without the theorems about the code TRANSLATED from the source: used by a run on which the translator
+            # refused the current source (the property is then decided by the hand-written model tied by correspondence alone)
+            imps = ' '.join(m for m in imports.split() if not (m.startswith('PyRtTS') or m.startswith('TSGen')))
+            base = [out[0].replace('GENERATED by', 'BASE VARIANT (no translated-source theorems), GENERATED by'), f'From CG Require Import {imps}.', '']
+            k = 3
+            while k < len(out):
+                if '_translated_' not in out[k].split(' :')[0]:
+                    base += out[k:k + 4]
+                k += 4
+            (TH / 'Properties' / f'{pid}base.v').write_text('\n'.join(base))
         r = subprocess.run(['coqc', '-Q', str(TH), 'CG', str(p)], capture_output=True, text=True)
         closed = r.stdout.count('Closed under the global context')
         print(pid, 'rc', r.returncode, 'theorems', len(entries), 'closed', closed, r.stderr[-600:])
